@@ -24,18 +24,18 @@ import (
 // branches are classified instead), so folding `NonNull && DefaultValue == nil` into a helper stays silent.
 var c07Dispatch = map[string]map[string]string{
 	"validateDefinition": {
-		`Definition.Kind == "INPUT_OBJECT"`:     "input fields take the INPUT_FIELD_DEFINITION location and the input-kind check",
-		`Definition.Kind == "OBJECT"`:           "objects must define fields of output kinds",
-		`Definition.Kind == "INTERFACE"`:        "interfaces must define fields of output kinds",
-		`Definition.Kind == "ENUM"`:             "enums must define values, none of them true/false/null",
-		`Definition.BuiltIn`:                    "reserved names are allowed to the prelude only",
-		`lookup-ok(Schema.Types[Name()])`:       "the kind of a field type is tested when the type exists (existence was checked before)",
+		`Definition.Kind == "INPUT_OBJECT"`: "input fields take the INPUT_FIELD_DEFINITION location and the input-kind check",
+		`Definition.Kind == "OBJECT"`:       "objects must define fields of output kinds",
+		`Definition.Kind == "INTERFACE"`:    "interfaces must define fields of output kinds",
+		`Definition.Kind == "ENUM"`:         "enums must define values, none of them true/false/null",
+		`Definition.BuiltIn`:                "reserved names are allowed to the prelude only",
+		`lookup-ok(Schema.Types[Name()])`:   "the kind of a field type is tested when the type exists (existence was checked before)",
 	},
 	"validateDirectives": {
-		`param == nil`:                                "the directive being defined, when there is one (self-reference test)",
-		`? == param`:                                  "location membership scan",
-		`ArgumentDefinition.DefaultValue == nil`:      "required argument = non-null type without default",
-		`ArgumentDefinition.Type->Type.NonNull`:       "required argument = non-null type without default",
+		`param == nil`:                           "the directive being defined, when there is one (self-reference test)",
+		`? == param`:                             "location membership scan",
+		`ArgumentDefinition.DefaultValue == nil`: "required argument = non-null type without default",
+		`ArgumentDefinition.Type->Type.NonNull`:  "required argument = non-null type without default",
 	},
 	"validateImplements": {
 		`ArgumentDefinition.Type->Type.NonNull`: "additional arguments of the implementer must not be required",
